@@ -50,6 +50,25 @@ pub fn tracked(name: &str) -> bool {
 }
 
 impl Shadow {
+    /// Start from the files of an existing directory (all content durable).
+    pub fn from_dir(dir: &Path) -> Shadow {
+        let mut s = Shadow::default();
+        if let Ok(rd) = std::fs::read_dir(dir) {
+            for e in rd.flatten() {
+                if e.file_type().map(|t| t.is_file()).unwrap_or(false) {
+                    let name = e.path().to_string_lossy().to_string();
+                    if !tracked(&name) {
+                        continue;
+                    }
+                    if let Ok(data) = std::fs::read(e.path()) {
+                        s.files.insert(name, FileModel { exists: true, cur: data.clone(), durable: Some(data), pending: vec![], deleted_unsynced: false });
+                    }
+                }
+            }
+        }
+        s
+    }
+
     pub fn apply(&mut self, ev: &Ev) {
         match ev {
             Ev::Open { file, flags } => {
